@@ -726,6 +726,7 @@ structure CSim where
   view : View := []
   remote : Nat := 0
   openRecv : Bool := false             -- a remote delta was merged while a batch was open
+  cleaned : Bool := false
   deriving Repr
 
 def CSim.bad (b : CSim) (w : String) : CSim := if b.agree then { b with agree := false, why := w } else b
@@ -809,7 +810,7 @@ def cRemote (keys : List Key) (b : CSim) (ds : List Delta) (hooks : List Hook) (
   cObserve keys b b.c.out.length [] hooks view
 
 inductive CStepS where
-  | loc (o : BOp) | rem (o : BOp) | arm (c : List Outcome) | flush
+  | loc (o : BOp) | rem (o : BOp) | arm (c : List Outcome) | flush | clean
   deriving Repr
 
 def parseCSteps : List String → List Nat → Option (List CStepS)
@@ -826,11 +827,25 @@ def parseCSteps : List String → List Nat → Option (List CStepS)
       let l ← parseCSteps rest vals
       pure ((if remote then .rem (.del c) else .loc (.del c)) :: l)
     else if st == "f" then (parseCSteps rest vals).map (.flush :: ·)
+    else if st == "c" then (parseCSteps rest vals).map (.clean :: ·)
     else if st.startsWith "!" then do
       let c ← classOutcome (dropS st 1)
       let l ← parseCSteps rest vals
       pure (.arm c :: l)
     else none
+
+/-- stop, `Clean` (set, heads and blockstore wiped), restart on the same datastore, everything published so
+    far delivered again (`KRep.clean` then `handleAll`): the worker starts afresh, the heads' height is that of
+    the re-announced DAG -/
+def cClean (keys : List Key) (b : CSim) (view : View) : CSim :=
+  let all := b.c.out ++ b.c.got
+  let k := handleAll all.reverse (KRep.clean { rep := b.c.rep, known := all.map (·.id) })
+  let c' : CSt := { b.c with rep := k.rep, height := maxPrio all, queue := [], pend := {}, batch := [], curSize := 0,
+                             timer := false, phase := .idle }
+  let b := { b with c := c', hooks := [], cleaned := true }
+  let b := if viewOf c'.rep keys != view then b.bad "view-after-clean" else b
+  { b with view := view,
+           steps := b.steps ++ [{ replica := 0, ops := none, hooks := [], before := view, after := view }] }
 
 def simComp (bc : BCfg) (keys : List Key) : CSim → List CStepS → List String → Option CSim
   | b, [], [] => some b
@@ -851,6 +866,12 @@ def simComp (bc : BCfg) (keys : List Key) : CSim → List CStepS → List String
       match parseCDeltas (dropS d 1), parseHooks hk, parsePairs v with
       | some ds, some hooks, some view => if !d.startsWith "R" then none else simComp bc keys (cRemote keys b ds hooks view) st outs
       | _, _, _ => none
+    | _ => none
+  | b, .clean :: st, o :: outs =>
+    match o.splitOn "/" with
+    | ["C", v] => match parsePairs v with
+      | some view => simComp bc keys (cClean keys b view) st outs
+      | none => none
     | _ => none
   | b, .flush :: st, o :: outs =>
     match o.splitOn "/" with
@@ -887,7 +908,7 @@ def answerComp (pre post : List String) : String :=
             let fl := failed (setClauses { steps := b.steps, finals := finals, exchanged := ex == "1" })
             let arm := "comp-" ++ toString bc.mode ++ (if bc.mode == 'N' then "" else "-size" ++ toString bc.cfg.maxSize) ++
               (if b.remote == 0 then "-noremote" else if b.openRecv then "-recv-in-open-batch" else "-recv") ++
-              (if firedW == "-" then "" else "-fail" ++ firedW)
+              (if firedW == "-" then "" else "-fail" ++ firedW) ++ (if b.cleaned then "-cleaned" else "")
             if !fl.isEmpty then "propfail " ++ ",".intercalate fl ++ " arm=" ++ arm ++ " expl=unexplained model=" ++
               (if b.agree then "agree" else "differ:" ++ b.why)
             else if !b.agree then "diff arm=" ++ arm ++ " model=" ++ b.why
